@@ -14,6 +14,8 @@ use std::sync::atomic::{AtomicI32, Ordering};
 use std::time::Instant;
 
 pub mod alloc;
+pub mod fuzz;
+pub mod fuzzdrv;
 pub mod fx;
 
 #[derive(Clone, Copy, Debug, PartialEq, Eq)]
@@ -82,6 +84,7 @@ pub struct Ctx {
     pub assumptions: Vec<String>,
     pub subchecks: BTreeMap<String, u64>,
     pub regress_replayed: u64,
+    pub fuzz_executions: u64,
 }
 
 static REPORT_FD: AtomicI32 = AtomicI32::new(1);
@@ -215,6 +218,7 @@ impl Ctx {
             assumptions: Vec::new(),
             subchecks: BTreeMap::new(),
             regress_replayed: 0,
+            fuzz_executions: 0,
         }
     }
 
@@ -601,6 +605,7 @@ impl Ctx {
         );
         cov.insert("known_findings_tolerated".into(), json!(self.known_hits));
         cov.insert("regress_replayed".into(), json!(self.regress_replayed));
+        cov.insert("fuzz_executions".into(), json!(self.fuzz_executions));
         cov.insert("notes".into(), json!(self.notes));
         cov.insert(
             "violations_detail".into(),
